@@ -55,7 +55,30 @@ def seeded():
         print(f"| {name} | {m['change']} | {m['needs_to_manifest']} | {'yes' if ok else 'NO'} | {cb or 'none'} | {first} |")
 
 
+def benign_seeded():
+    sd = os.path.join(HERE, "benign_seeded")
+    if not os.path.isdir(sd):
+        return
+    print("\n| independently written refactoring | what it is (first line of its NOTES.md) | baseline tests | alarms over all 18 quick tiers |")
+    print("|---|---|---|---|")
+    for name in sorted(os.listdir(sd)):
+        lr = os.path.join(sd, name, "last_run.json")
+        if not os.path.exists(lr):
+            continue
+        r = json.load(open(lr))
+        notes = os.path.join(sd, name, "NOTES.md")
+        first = ""
+        if os.path.exists(notes):
+            for line in open(notes, encoding="utf-8"):
+                if line.strip():
+                    first = line.strip().lstrip("# ").replace("|", "/")[:160]
+                    break
+        alarms = [c for c, v in r.get("checks", {}).items() if v["rc"] != 0]
+        print(f"| {name} | {first} | {'pass' if r.get('tests_pass_with_change') else 'FAIL'} | {', '.join(alarms) or 'none'} |")
+
+
 if __name__ == "__main__":
     mutants()
     benign()
+    benign_seeded()
     seeded()
